@@ -32,7 +32,7 @@ Lemma nparse_accept_unfold : forall strict items conf, nparse strict items conf 
 Proof.
   intros strict items conf H. unfold nparse, level_ok in H. apply andb_true_iff in H. destruct H as [He Hc].
   split.
-  - destruct (check_keywords _ _ _) eqn:C; [|discriminate]. exact (proj1 (check_keywords_ok_spec _ _ _) C).
+  - destruct (check_keywords _ _ _) eqn:C; [|discriminate]. intros l Hl. apply line_clean_starts. exact (proj1 (check_keywords_ok_spec _ _ _) C l Hl).
   - intros key sub d Hi Hd.
     apply negb_true_iff in He.
     assert (Hit : ir_err (item_res strict (NBlock key sub) conf) = false).
@@ -45,6 +45,16 @@ Proof.
     apply andb_true_iff in Hf. destruct Hf as [Hn Hl]. split.
     + intros E. subst d. discriminate.
     + exact Hl.
+Qed.
+
+(* ... and nothing else: every remaining line of an accepted level is blank, or begins with a keyword of the level
+   and holds only braces and keywords of the level after it *)
+Lemma nparse_no_unknown_text : forall strict items conf, nparse strict items conf = true ->
+  forall l, In l (split_lines (strip_values conf (level_registry strict items conf))) ->
+            line_clean (level_keywords strict items conf) l.
+Proof.
+  intros strict items conf H. unfold nparse, level_ok in H. apply andb_true_iff in H. destruct H as [_ Hc].
+  destruct (check_keywords _ _ _) eqn:C; [|discriminate]. exact (proj1 (check_keywords_ok_spec _ _ _) C).
 Qed.
 
 (* the same on the original text of the level *)
@@ -190,3 +200,17 @@ Lemma tuple_value_strict : forall n data v,
   scalar_value (extract_tuple n) data = SAccept v <->
   exists rest, skip_space data <> [] /\ extract_tuple n (skip_space data) = ExtOk v rest /\ NumProofs.all_space rest.
 Proof. intros n. apply (NumProofs.scalar_value_iff (extract_tuple n) (extract_tuple_progress n)). Qed.
+
+(* lists of 3-vectors / quaternions: accepted iff the whole text is a sequence of delimited tuples *)
+Lemma tuple_vector_strict : forall n data vs,
+  vector_dyn (extract_tuple n) data = VAccept vs <-> NumProofs.tokens_of (extract_tuple n) data vs.
+Proof.
+  intros n data vs.
+  assert (T : forall vs0, extract_all (extract_tuple n) true (S (length data)) data = (vs0, []) <->
+                          NumProofs.tokens_of (extract_tuple n) data vs0).
+  { intros vs0. apply (NumProofs.extract_all_tokens (extract_tuple n) (extract_tuple_progress n)). lia. }
+  unfold vector_dyn. split.
+  - intros H. destruct (extract_all (extract_tuple n) true (S (length data)) data) as [vs' r] eqn:E.
+    destruct r; [|discriminate]. inversion H. subst vs'. apply T. reflexivity.
+  - intros H. apply T in H. rewrite H. reflexivity.
+Qed.
